@@ -26,7 +26,7 @@ def pool_cases(seed, n, max_blocks, path):
         for i in range(n):
             fault = i % 4 == 3
             blocks = rng.choice([1, 2, 3, 5, 9, 17, 33, max_blocks]) if i % 3 else rng.randint(1, max_blocks)
-            sc = {"seed": seed, "idx": i, "blocks": blocks, "workers": rng.choice([1, 2, 2, 3, 4, 6, 8, 12, 16]),
+            sc = {"seed": seed, "idx": i, "blocks": blocks, "workers": rng.choice([0, 1, 2, 2, 3, 4, 6, 8, 12, 16]),
                   "procs": rng.choice([1, 2, 4, 16]), "yieldpm": rng.choice([0, 100, 300, 600]),
                   "faultat": rng.randint(1, 2 * blocks + 3) if fault else 0}
             f.write(json.dumps(sc) + "\n")
